@@ -33,6 +33,12 @@ def continuations(d, depth, rng, budget):
     return out
 
 
+def rest_gate_open():
+    """the real gate function of the REST send endpoints, on the world of the driver that ran last"""
+    from yabgp.api import utils as api_utils
+    return bool(api_utils._ready_to_send_msg(peer_ip='10.0.0.2'))
+
+
 def run(ctx):
     kw = {}
     depth = 5 if ctx.thorough else 4
@@ -43,6 +49,7 @@ def run(ctx):
         reps.setdefault(k1, path)
     viol, traces, samples = [], [], []
     n = 0
+    gate_viol = []
     seen_known = set()
     states = list(reps.values())
     if not ctx.thorough and len(states) > 120:
@@ -71,6 +78,13 @@ def run(ctx):
         if before[5] and before[7][before[5][0]][0] == 1 and not any(o == [2, before[5][0]] for o in r[1]) \
                 and not before[7][before[5][0]][1]:
             viol.append({'what': 'stop did not close the tracked connection', 'events': [sc.name_of(x) for x in path], 'known': None})
+        # the gate of the REST send endpoints (api/utils.py: makesure_peer_establish -> _ready_to_send_msg) on the
+        # real world: closed from the moment of the stop (the session model assumes API sends are possible in
+        # Established only; this is where that assumption meets the code)
+        if rest_gate_open():
+            viol.append({'what': 'after a manual stop the REST send gate is still open (a send/update, send/bin_update or '
+                                 'send/route-refresh would be written to the connection being closed)',
+                         'events': [sc.name_of(x) for x in path] + [['stop']], 'known': None})
         # continuations
         d.path = list(path) + [('stop',)]
         for cont in continuations(d, 3 if ctx.thorough else 2, ctx.rng, 8):
@@ -81,6 +95,10 @@ def run(ctx):
             for i, e in enumerate(cont):
                 rr = d2.apply(e)
                 n += 1
+                if rr[0] and rest_gate_open() and rr[2][0] != 6 and not gate_viol:
+                    gate_viol.append(1)
+                    viol.append({'what': 'REST send gate open in state %d after a manual stop (event %r)' % (rr[2][0], sc.name_of(e)),
+                                 'events': [sc.name_of(x) for x in d.path + list(cont[:i + 1])], 'known': None})
                 if any(o[0] in (0, 1) for o in rr[1]):
                     bad = (i, e, rr[1])
                     break
